@@ -274,9 +274,13 @@ def string_value(symbols, name: str) -> str:
 
 # ---------------------------------------------------------------------------- whole program (copy of C03.run_cli, recording)
 
+FAILING_PROGRAM = 'vsym-failing-program'  # the stub process with this name exits with code 1, every other with 0
+
+
 class SubprocessStub:
     """Stands in for the `subprocess` module at exactly_lib's process-starting sites.
-    Records every call (argv / command line, shell flag, cwd) and starts nothing; exit code 0, no output."""
+    Records every call (argv / command line, shell flag, cwd) and starts nothing; no output; exit code 0, except
+    for the program named FAILING_PROGRAM: 1."""
     import subprocess as _sp
     TimeoutExpired = _sp.TimeoutExpired
     DEVNULL = _sp.DEVNULL
@@ -286,8 +290,10 @@ class SubprocessStub:
 
     @classmethod
     def call(cls, *a, **k):
-        cls.calls.append((a[0] if a else k.get('args'), bool(k.get('shell')), os.getcwd()))
-        return 0
+        cmd = a[0] if a else k.get('args')
+        cls.calls.append((cmd, bool(k.get('shell')), os.getcwd()))
+        program = cmd if isinstance(cmd, str) else (cmd[0] if cmd else '')
+        return 1 if FAILING_PROGRAM in program else 0
 
 
 class Sink:
@@ -350,3 +356,64 @@ def run_cli(text: str):
     scratch.remove(work)
     return dict(rc=rc, exc=exc, ident=out.value().split('\n')[0], stdout=out.value(), stderr=err.value(),
                 calls=calls, sandboxes=list(roots), case_dir=case_dir)
+
+
+def run_suite(case_texts: Sequence[str]):
+    """Runs the REAL main program in process on a suite file listing the case files c0.case, c1.case, ... (in this
+    order) holding `case_texts`.  -> dict(rc, exc, statuses: the outcome printed for each case, in order)"""
+    import io
+    from vsym import scratch
+    from exactly_lib.cli import main_program
+    from exactly_lib.cli_default import default_main_program_setup as d
+    from exactly_lib.execution import sandbox_dir_resolving
+    from exactly_lib.util.file_utils.std import StdOutputFiles
+    from exactly_lib.util.process_execution import process_executor
+    from exactly_lib.processing import preprocessor
+    process_executor.subprocess = SubprocessStub
+    preprocessor.subprocess = SubprocessStub
+    work = scratch.new_dir('c08s')
+    names = []
+    for i, text in enumerate(case_texts):
+        names.append('c%d.case' % i)
+        with open(os.path.join(work, names[-1]), 'w') as f:
+            f.write(text)
+    with open(os.path.join(work, 's.suite'), 'w') as f:
+        f.write('[cases]\n' + '\n'.join(names) + '\n')
+    roots = []
+
+    def resolver() -> str:
+        p = os.path.join(work, 'sandbox-%d' % (len(roots) + 1))
+        os.mkdir(p)
+        roots.append(p)
+        return p
+
+    real_mk_tmp = sandbox_dir_resolving.mk_tmp_dir_with_prefix
+    sandbox_dir_resolving.mk_tmp_dir_with_prefix = lambda prefix: resolver  # the suite makes its own resolver: tempfile.mkdtemp
+    out, err = Sink(), Sink()
+    SubprocessStub.calls = []
+    cwd = os.getcwd()
+    exc = None
+    try:
+        mp = main_program.MainProgram(
+            d.test_case_handling_setup.setup(), resolver,
+            d.TestCaseDefinitionForMainProgram(
+                d.TestCaseParsingSetup(d.instruction_name_and_argument_splitter.splitter,
+                                       d.default_instructions_setup.INSTRUCTIONS_SETUP, d.ActPhaseParser()),
+                d.builtin_symbols.ALL),
+            d.test_suite.test_suite_definition(), io.DEFAULT_BUFFER_SIZE)
+        try:
+            rc = mp.execute(['suite', os.path.join(work, 's.suite')], StdOutputFiles(out, err))
+        except Exception as e:  # noqa
+            rc, exc = None, e
+    finally:
+        sandbox_dir_resolving.mk_tmp_dir_with_prefix = real_mk_tmp
+        os.chdir(cwd)
+    statuses = {}
+    for line in out.value().split('\n'):
+        parts = line.split()
+        if len(parts) >= 3 and parts[0] == 'case' and parts[1].endswith('.case:'):
+            statuses[parts[1][:-1]] = parts[-1]
+    calls = list(SubprocessStub.calls)
+    scratch.remove(work)
+    return dict(rc=rc, exc=exc, statuses=[statuses.get(n) for n in names], stdout=out.value(), stderr=err.value(),
+                calls=calls, sandboxes=len(roots))
